@@ -80,7 +80,13 @@ int main(void) {
                 char *r = qstrreplace((char *)gm.p, (char *)gs.p, (char *)gt.p, (char *)gw.p);
                 gm_stop(); QV_END;
                 printf("R ");
-                if (r == NULL) printf("NULL"); else puthex(stdout, r, strlen(r));
+                /* the documented memory modes: "?n" hands out a fresh malloc()ed string the caller frees (never the source), "?r" the source */
+                const char *md = (const char *)gm.p;
+                int okmode = (md[0] == 's' || md[0] == 't') && (md[1] == 'n' || md[1] == 'r') && md[2] == 0;
+                if (r == NULL) printf("NULL");
+                else if (okmode && md[1] == 'n' && r == (char *)gs.p) printf("BADRET-source-returned-in-new-buffer-mode");
+                else if (okmode && md[1] == 'r' && r != (char *)gs.p) printf("BADRET-not-the-source-in-replace-mode");
+                else puthex(stdout, r, strlen(r));
                 printf(" B "); puthex(stdout, gs.p, cap); printf(" M %zu\n", gm_first);
                 if (r != NULL && r != (char *)gs.p) free(r);
             } else { gm_stop(); printf("%s\n", why()); }
